@@ -232,12 +232,20 @@ function runOp(parsers, named, op, rebuild) {
     }
     case "ctxseq": {
       // a history of schemaWithContext calls on one context
-      const mk = () =>
+      // op.overrides: { typeName: index of the parser whose validator replaces the named type's schema }
+      const mk = (ps) =>
         new I.SchemaPrintingContext({
           refPathTemplate: op.template ?? "#/components/schemas/{name}",
           definitionContainerKey: op.container ?? null,
+          ...(op.overrides == null
+            ? {}
+            : {
+                namedTypeSchemaOverrides: Object.fromEntries(
+                  Object.entries(op.overrides).map(([n, i]) => [n, ps[i]]),
+                ),
+              }),
         });
-      const ctx = mk();
+      const ctx = mk(parsers);
       const outs = [];
       for (const idx of op.calls) {
         try {
@@ -251,19 +259,20 @@ function runOp(parsers, named, op, rebuild) {
       // the oracle of C16: each parser printed alone into a fresh context
       const fresh = {};
       for (const idx of new Set(op.calls)) {
-        const c = mk();
+        const ps = rebuild();
+        const c = mk(ps);
         try {
           // newly built validator objects: nothing cached on instances by earlier calls can leak into the oracle
-          const sch = rebuild()[idx].schemaWithContext(c);
+          const sch = ps[idx].schemaWithContext(c);
           fresh[idx] = { schema: JSON.parse(JSON.stringify(sch)), defs: JSON.parse(JSON.stringify(c.exportDefinitions())) };
         } catch (e) {
           fresh[idx] = { error: classify(e) };
         }
       }
       let raw;
-      const c2 = mk();
       const rawOuts = [];
       const parsers2 = rebuild();
+      const c2 = mk(parsers2);
       for (const idx of op.calls) {
         try {
           rawOuts.push(JSON.parse(JSON.stringify(parsers2[idx].schemaWithContext(c2))));
